@@ -47,6 +47,7 @@ RunDef(r) ==
       [] r = "sig2"   -> R(2, "sig",    "sig1",  "std",   "all")
       [] r = "skip3"  -> R(3, "all",    "empty", "quick", "skip")
       [] r = "data"   -> R(1, "data",   "empty", "min",   "all")
+      [] r = "sigshape" -> R(1, "sigops", "sigshape", "std", "all")
       [] r = "fad"    -> R(3, "fad",    "fad",   "bare",  "all")
       [] r = "sim"    -> R(40, "small", "empty", "quick", "alive")
       \* thorough tier
@@ -224,6 +225,8 @@ InitStacksOf(InitName) ==
                                \cup [1..3 -> {E0, E2}]
                                \cup {<<E1, E2, E3, E16, E17, EM1>>, <<E1, E2, E3, E16>>}
       [] InitName = "lock"  -> Stacks(ElemsLock, 1)
+      [] InitName = "sigshape" -> {<<sg, K1c>> : sg \in ShapeSigs} \cup {Multi(E0, <<sg>>, <<K1c>>) : sg \in ShapeSigs}
+                                  \cup {Multi(E0, <<sg, SigBy("K1", 0)>>, <<K1c, K2c>>) : sg \in ShapeSigs}
       [] InitName = "fad"   -> {<<>>, <<E0, E0, E1, K1c, E1>>}
 
 -----------------------------------------------------------------------------
